@@ -12,6 +12,7 @@ import (
 	"errors"
 	"fmt"
 	"io"
+	"math"
 	"os"
 	"path/filepath"
 	"sort"
@@ -52,8 +53,8 @@ func NewBuilderSized(
 	if valueSizeBytes == 0 {
 		return nil, fmt.Errorf("valueSizeBytes must be > 0")
 	}
-	if valueSizeBytes > 255 {
-		return nil, fmt.Errorf("valueSizeBytes must be <= 255")
+	if valueSizeBytes > MaxValueSize {
+		return nil, fmt.Errorf("valueSizeBytes must be <= %d", MaxValueSize)
 	}
 	if numItems == 0 {
 		return nil, fmt.Errorf("numItems must be > 0")
@@ -123,6 +124,12 @@ func (b *Builder) getValueSize() int {
 // Index generation will fail if the same key is inserted twice.
 // The writer must not pass a value greater than targetFileSize.
 func (b *Builder) Insert(key []byte, value []byte) error {
+	if len(key) > math.MaxUint16 {
+		return fmt.Errorf("key is too long: %d bytes (max %d)", len(key), math.MaxUint16)
+	}
+	if len(value) > b.getValueSize() {
+		return fmt.Errorf("value has %d bytes, more than the value size %d", len(value), b.getValueSize())
+	}
 	return b.buckets[b.Header.BucketHash(key)].writeTuple(key, value)
 }
 
